@@ -142,6 +142,9 @@ func (v vaultKVStorage) checkConnection() error {
 }
 
 func (v vaultKVStorage) GetPrivateKey(ctx context.Context, keyName string, _ string) (crypto.Signer, error) {
+	if err := validateKeyName(keyName); err != nil {
+		return nil, err
+	}
 	path := privateKeyPath(v.config.PathPrefix, keyName)
 	value, err := v.getValue(ctx, path, vaultSecretkeyName)
 	if err != nil {
@@ -181,6 +184,9 @@ func (v vaultKVStorage) storeValue(ctx context.Context, path, key string, value 
 }
 
 func (v vaultKVStorage) PrivateKeyExists(ctx context.Context, keyName string, _ string) (bool, error) {
+	if err := validateKeyName(keyName); err != nil {
+		return false, err
+	}
 	path := privateKeyPath(v.config.PathPrefix, keyName)
 	_, err := v.getValue(ctx, path, vaultSecretkeyName)
 	if errors.Is(err, spi.ErrNotFound) {
@@ -220,12 +226,25 @@ func privateKeyPath(prefix, kid string) string {
 	return filepath.Clean(path)
 }
 
+// validateKeyName refuses key names whose last path element is empty, "." or "..": privateKeyPath would resolve those to
+// the private key path itself or to its parent instead of to a secret below it.
+func validateKeyName(kid string) error {
+	switch filepath.Base(kid) {
+	case ".", "..", string(filepath.Separator):
+		return fmt.Errorf("invalid key name: %q", kid)
+	}
+	return nil
+}
+
 func privateKeyListPath(prefix string) string {
 	path := fmt.Sprintf("%s/%s", prefix, privateKeyPathName)
 	return filepath.Clean(path)
 }
 
 func (v vaultKVStorage) SavePrivateKey(ctx context.Context, keyPath string, key crypto.PrivateKey) error {
+	if err := validateKeyName(keyPath); err != nil {
+		return err
+	}
 	path := privateKeyPath(v.config.PathPrefix, keyPath)
 	pem, err := util.PrivateKeyToPem(key)
 	if err != nil {
@@ -236,6 +255,9 @@ func (v vaultKVStorage) SavePrivateKey(ctx context.Context, keyPath string, key 
 }
 
 func (v vaultKVStorage) DeletePrivateKey(ctx context.Context, kid string) error {
+	if err := validateKeyName(kid); err != nil {
+		return err
+	}
 	path := privateKeyPath(v.config.PathPrefix, kid)
 	_, err := v.client.DeleteWithContext(ctx, path)
 	if err != nil {
